@@ -10,7 +10,7 @@ from typing import Any, Dict, List, Optional, Tuple
 
 from vf import simnet, wire
 
-TYPES = ['_http._tcp.local.', '_ipp._tcp.local.', '_ssh._tcp.local.']
+TYPES = ['_http._tcp.local.', '_ipp._tcp.local.', '_ssh._tcp.local.', '_KeynoteCtl._tcp.local.']      # (one spelled with capitals, by everybody)
 
 
 def low(s: str) -> str:
@@ -93,8 +93,9 @@ class Recorder:
     def make_info(self, svc: dict) -> Any:
         from zeroconf import ServiceInfo
         host = self.hosts[svc['host']]
+        kw = {k: svc[k] for k in ('other_ttl', 'host_ttl') if k in svc}
         return ServiceInfo(svc['type'], svc['name'], svc['port'], properties=bytes.fromhex(svc['txt']), server=svc['host'] + '.local.',
-                           addresses=[socket.inet_aton(host.addr)])
+                           addresses=[socket.inet_aton(host.addr)], **kw)
 
     def svc_json(self, svc: dict) -> dict:
         return {'name': self.names.nb(svc['name']), 'type': self.names.nb(svc['type']), 'host': self.names.nb(svc['host'] + '.local.'),
@@ -246,7 +247,7 @@ def gen_link(rng: random.Random, sid: str, thorough: bool = False) -> dict:
     nh = rng.choice([2, 2, 3, 4, 5] if thorough else [2, 2, 3, 4])
     hosts = ['node%d' % k for k in range(nh)]
     ntypes = rng.choice([1, 1, 2, 3])
-    types = TYPES[:ntypes]
+    types = rng.sample(TYPES, ntypes)
     nsvc = rng.choice([1, 2, 3, 4, 6] if thorough else [1, 2, 3, 4])
     svcs = []
     for k in range(nsvc):
